@@ -11,7 +11,10 @@ Tie (what no model can replace):
      test_scripts/*.xr and of the book's code blocks, each top-level binding and zero-argument function run under limits;
  (c) shape check: the dump of every value so produced has the shape of the static type the compiler reports for it;
  (d) function values of different types (arity, optional parameters, parameter and result types, named and lambda, core and
-     library) in every position where the compiler computes a common type, then called with each arity.
+     library) in every position where the compiler computes a common type, then called with each arity;
+ (e) declaration structure: generated programs with forward functions (call graphs among the implementations, a use at every
+     position) and structure mutants of the shipped programs (declarations moved, swapped, deleted, forwards duplicated):
+     what the compiler accepts must instantiate and run.
 A corpus of minimised past failures (corpus/C01/*.case) runs first."""
 import glob
 from .common import *
@@ -1030,6 +1033,177 @@ def script_search(chk, n_mut):
                               {"src": q["src"], "limits": lim, "calls": q["calls"]})
 
 
+# ================================================================================================ declaration structure
+
+def split_decls(src):
+    """top-level pieces of a declaration list: [(text, kind)] where kind is 'decl' (ends in `;` or a closing brace at
+    depth 0) or 'tail' (a trailing expression); comments and strings are skipped as tokens"""
+    toks = TOKEN.findall(src)
+    out, cur, depth = [], [], 0
+    for t in toks:
+        cur.append(t)
+        if t in ('(', '[', '{'):
+            depth += 1
+        elif t in (')', ']', '}'):
+            depth -= 1
+            if depth == 0 and t == '}' and re.match(r'\s*(fn|struct|union)\b', "".join(cur)):
+                out.append(("".join(cur), 'decl'))
+                cur = []
+        elif t == ';' and depth == 0:
+            out.append(("".join(cur), 'decl'))
+            cur = []
+        if depth < 0:
+            return None
+    rest = "".join(cur)
+    if rest.strip():
+        out.append((rest, 'tail'))
+    return out if depth == 0 else None
+
+
+def mutate_decls(rng, pieces):
+    """one structural change of a declaration list (the trailing expression stays last)"""
+    idx = [i for i, (t, k) in enumerate(pieces) if k == 'decl']
+    if len(idx) < 2:
+        return None, None
+    ps = list(pieces)
+    kind = rng.choice(['move', 'move', 'swap', 'delete', 'dup-forward', 'move-use-early'])
+    if kind == 'move':
+        i = rng.choice(idx)
+        x = ps.pop(i)
+        ps.insert(rng.choice([j for j in range(len(idx)) if j != i] or [0]), x)
+    elif kind == 'swap':
+        i = rng.choice(idx[:-1])
+        ps[i], ps[i + 1] = ps[i + 1], ps[i]
+    elif kind == 'delete':
+        del ps[rng.choice(idx)]
+    elif kind == 'dup-forward':
+        fw = [i for i in idx if re.match(r'\s*forward\b', ps[i][0])]
+        if not fw:
+            return None, None
+        ps.insert(rng.choice(idx), ps[rng.choice(fw)])
+    else:
+        lets = [i for i in idx if re.match(r'\s*let\b', ps[i][0])]
+        if not lets:
+            return None, None
+        i = rng.choice(lets)
+        x = ps.pop(i)
+        ps.insert(rng.randrange(0, i + 1), x)
+    return ps, kind
+
+
+def mutate_structure(rng, src):
+    """a declaration-structure mutant of a program: at the top level or inside the body of one top-level function"""
+    top = split_decls(src)
+    if not top:
+        return None, None
+    fns = [i for i, (t, k) in enumerate(top) if k == 'decl' and re.match(r'\s*fn\b', t) and '{' in t]
+    if fns and (rng.random() < 0.6 or len([1 for t, k in top if k == 'decl']) < 2):
+        i = rng.choice(fns)
+        t = top[i][0]
+        a, b = t.index('{'), t.rindex('}')
+        body = split_decls(t[a + 1:b])
+        if body:
+            m, kind = mutate_decls(rng, body)
+            if m is not None:
+                new = t[:a + 1] + "".join(x for x, _ in m) + t[b:]
+                return "".join(x for x, _ in top[:i]) + new + "".join(x for x, _ in top[i + 1:]), "nested-" + kind
+    m, kind = mutate_decls(rng, top)
+    if m is None:
+        return None, None
+    return "".join(x if x.endswith("\n") else x + "\n" for x, _ in m), "top-" + kind
+
+
+def forward_program(rng):
+    """a program with 1-3 forward functions whose implementations call each other in a random graph, the implementations in a
+    random order, and one USE (a call, the function taken as a value, a wrapper function, a lambda) at a random position;
+    at the top level or inside a function body. No function value leaves its scope."""
+    k = rng.choice([1, 2, 2, 2, 3, 3])
+    names = [f"g{i}" for i in range(k)]
+    fwd = [f"forward fn {n}(x: int)->int;\n" for n in names]
+    impls = []
+    for i, n in enumerate(names):
+        callees = [m for m in names if rng.random() < 0.6] or [rng.choice(names)]
+        rec = " + ".join(f"{m}(x - 1)" for m in callees)
+        impls.append(f"fn {n}(x: int)->int{{\nif(x <= 0, {i + 1}, {rec})\n}}\n")
+    rng.shuffle(impls)
+    items = list(fwd)
+    # a forward declaration may also come late (just before its implementation) or twice
+    r = rng.random()
+    if r < 0.15:
+        items = items[:-1]
+        impls.insert(rng.randrange(len(impls) + 1), fwd[-1])
+    elif r < 0.25:
+        items.append(rng.choice(fwd))
+    elif r < 0.32 and len(impls) > 1:
+        del impls[rng.randrange(len(impls))]          # an implementation is missing
+    items += impls
+    f = rng.choice(names)
+    use = rng.choice([
+        [f"let u = {f}(2);\n"],
+        [f"let u = [{f}];\n"],
+        [f"let h = {f};\n", "let u = h(2);\n"],
+        [f"let w = (x: int)->{{{f}(x)}};\n", "let u = w(1);\n"],
+        [f"fn w(x: int)->int{{\n{f}(x) + 1\n}}\n", "let u = w(1);\n"],
+        [f"let u = ({f}, 1);\n"],
+        [f"let u = if(true, {f}, {rng.choice(names)})(1);\n"],
+        [f"let u = [1, 2].map({f}).to_array();\n"],
+    ])
+    pos = rng.randrange(len(fwd) if rng.random() < 0.8 else 0, len(items) + 1)
+    if len(use) == 2 and rng.random() < 0.5:
+        pos2 = rng.randrange(pos, len(items) + 1)
+        items = items[:pos] + [use[0]] + items[pos:pos2] + [use[1]] + items[pos2:]
+    else:
+        items = items[:pos] + use + items[pos:]
+    if rng.random() < 0.4:
+        return "fn main0()->int{\n" + "".join(items) + "7\n}\nlet r = main0();\n", f"nested-k{k}"
+    return "".join(items), f"top-k{k}"
+
+
+def decl_part(chk, n_gen, n_mut):
+    """Whatever the compiler accepts must instantiate and run every binding: declaration-structure mutants of the shipped
+    programs (a declaration moved / swapped / deleted, a forward duplicated, a `let` moved up) and generated programs with
+    forward functions. Rejections are not judged here."""
+    rng = chk.rng
+    progs = shipped_programs()
+    with_fwd = [p for p in progs if 'forward' in p[1]]
+    reqs, meta = [], []
+    for _ in range(n_gen):
+        src, tag = forward_program(rng)
+        lets, fns = names_of_program(src)
+        reqs.append({"op": "typing", "f": "run", "src": src, "get": lets, "types": lets, "calls": fns, "limits": SCRIPT_LIMITS[0]})
+        meta.append(("generated forward program " + tag, "gen-" + tag.split("-")[0]))
+    for _ in range(n_mut):
+        name, src = rng.choice(with_fwd) if (with_fwd and rng.random() < 0.5) else rng.choice(progs)
+        m, kind = mutate_structure(rng, src)
+        if m is None or m == src:
+            continue
+        if rng.random() < 0.25:
+            m2, k2 = mutate_structure(rng, m)
+            if m2:
+                m, kind = m2, kind + "+" + k2
+        lets, fns = names_of_program(m)
+        reqs.append({"op": "typing", "f": "run", "src": m, "get": lets, "types": lets, "calls": fns, "limits": SCRIPT_LIMITS[0]})
+        meta.append((f"{kind} of {name}", "mut-" + kind.split("-")[0]))
+    resps = run_sliced(reqs)
+    for (label, tag), q, r in zip(meta, reqs, resps):
+        chk.evaluations += 1
+        f = fail_of(r)
+        if f:
+            if f[0] == "panic" and "ran out of scope parents" in f[1]:
+                chk.count("decl:known-c03-fwd-escape")      # C03's finding c03:fwd-escape:panic (a closure that captured a pending forward left its scope)
+                continue
+            chk.count(f"decl:{tag}:{f[0]}")
+            report_failure(chk, "decl", label, {"outcome": f[0], "detail": f[1], "src": q["src"], "limits": q["limits"]}, {"get": q["get"], "calls": q["calls"]})
+            continue
+        acc = r.get("compile") == "ok"
+        chk.count(f"decl:{tag}:{'accepted' if acc else 'rejected'}")
+        if acc:
+            chk.nontrivial.add(q["src"])
+            for c in r.get("calls", []):
+                if isinstance(c, str) and c.startswith("!tailcall"):
+                    chk.violation("decl:tailcall-escaped", f"a zero-argument function of a {label} returned an unresolved tail call to the host", {"src": q["src"], "calls": q["calls"]})
+
+
 # ================================================================================================ (a) core fragment
 
 def ty_sexp(t):
@@ -1536,6 +1710,7 @@ def run(chk):
     funcval_part(chk, quick)
     t3 = time.time()
     script_search(chk, 500 if quick else 6000)
+    decl_part(chk, 250 if quick else 3000, 350 if quick else 4000)
     chk.coverage["seconds"] = {"corpus": round(t1 - t0, 1), "core": round(t2 - t1, 1), "library": round(t3 - t2, 1), "scripts": round(time.time() - t3, 1)}
     return chk.finish(rule="(a) generated core programs + near-miss mutants (one node changed: argument type, dropped/extra argument, index out of range, literal "
                            "type, unbound name, call of a non-function, condition type, declared result/parameter type): accept/reject and static types of the real "
